@@ -265,6 +265,9 @@ type FmtCase struct {
 	// Seq: further instants (cumulative millisecond steps from T, kept inside the century) formatted
 	// one after the other by the SAME DateFormat object
 	Seq []int64 `json:"seq,omitempty"`
+	// Bad > 0: between its first and second Parse the re-used object is given a malformed text (the formatted text cut
+	// after Bad/2 runes when Bad is even, with rune Bad/2 replaced by 'x' when odd)
+	Bad int `json:"bad,omitempty"`
 	// Zone: the process's local zone for this case, minutes east of UTC (Parse reads the fields in the local zone,
 	// FormatTime is given the instant in that zone); 0 = UTC
 	Zone int `json:"zone,omitempty"`
@@ -354,7 +357,23 @@ func runFmt(c FmtCase) *pbt.Result {
 	text := df.FormatTime(want)
 	fresh := dateutil.NewDateFormat(c.Pattern)
 	// a fresh object, the same object a second time (Parse keeps the parsed fields in the object), and the object that formatted
-	for _, parser := range []*dateutil.DateFormat{fresh, fresh, df} {
+	for pi, parser := range []*dateutil.DateFormat{fresh, fresh, df} {
+		if pi == 1 && c.Bad > 0 && len(text) > 0 {
+			// before its second use the object is given a text it cannot accept (a corrupted or cut-off line): whatever it
+			// answers, the next well-formed text parses as before
+			rs := []rune(text)
+			bad := ""
+			if c.Bad%2 == 0 {
+				bad = string(rs[:(c.Bad/2)%len(rs)])
+			} else {
+				rs[(c.Bad/2)%len(rs)] = 'x'
+				bad = string(rs)
+			}
+			func() {
+				defer func() { recover() }()
+				parser.Parse(bad)
+			}()
+		}
 		ms, err := parser.Parse(text)
 		if err != nil {
 			return pbt.Fail("pattern %q: Parse(Format(%s) = %q) failed: %v", c.Pattern, want.Format(time.RFC3339Nano), text, err)
@@ -428,7 +447,7 @@ func runFmt(c FmtCase) *pbt.Result {
 
 var specFmt = pbt.Register(pbt.Spec[FmtCase]{
 	Prop: "C19", Name: "dateformat-roundtrip",
-	Rule:  "patterns over the field letters y m d H M S s (date letters all present or all absent, any subset/order of the time letters, occasionally a repeated letter) with optional literal separators (ASCII punctuation, T, Z, multi-byte runes) and an instant of the century drawn field by field with edge values; Parse(Format(t)) must agree with t on every field present (and equal t when all seven are present), with a fresh and with a re-used DateFormat, in a third of the cases with the process's local zone set to a fixed offset between -12 h and +13 h or to one of five named zones, four of them with daylight saving time (Parse reads the fields in the local zone); in a third of the cases the same object then formats 1-5 further instants (steps of 1 ms .. 1 day, also backwards): each text must equal what a fresh object produces and parse back to its instant; non-trivial = >= 3 fields; distinct by (pattern, instant)",
+	Rule:  "patterns over the field letters y m d H M S s (date letters all present or all absent, any subset/order of the time letters, occasionally a repeated letter) with optional literal separators (ASCII punctuation, T, Z, multi-byte runes) and an instant of the century drawn field by field with edge values; Parse(Format(t)) must agree with t on every field present (and equal t when all seven are present), with a fresh and with a re-used DateFormat (which in a quarter of the cases is given a malformed text - cut off, or one rune replaced - in between), in a third of the cases with the process's local zone set to a fixed offset between -12 h and +13 h or to one of five named zones, four of them with daylight saving time (Parse reads the fields in the local zone); in a third of the cases the same object then formats 1-5 further instants (steps of 1 ms .. 1 day, also backwards): each text must equal what a fresh object produces and parse back to its instant; non-trivial = >= 3 fields; distinct by (pattern, instant)",
 	Quick: 300000, Thorough: 1500000,
 	Draw: func(t *rapid.T) FmtCase {
 		c := FmtCase{Pattern: drawPattern(t)}
@@ -440,6 +459,9 @@ var specFmt = pbt.Register(pbt.Spec[FmtCase]{
 			} else {
 				c.Zone = rapid.SampledFrom([]int{540, -480, 330, 345, -210, 60, -60, 780, -720}).Draw(t, "zone")
 			}
+		}
+		if rapid.IntRange(0, 3).Draw(t, "bad?") == 0 {
+			c.Bad = rapid.IntRange(1, 60).Draw(t, "bad")
 		}
 		if rapid.IntRange(0, 2).Draw(t, "sequence") == 0 {
 			c.Seq = rapid.SliceOfN(rapid.SampledFrom([]int64{1, 1, 2, 10, 500, 999, 1000, 1001, -1, -999, 59999, 60000, 3600000, 86400000, -86400000}), 1, 5).Draw(t, "seq")
